@@ -724,11 +724,22 @@ Print Assumptions C04_from_cptensor_result_valid.
 Theorem C04_cp_mode_dot_copy_fresh : forall (F : Type) (Op : fops F) (h : heap) r x mode kd h' o,
   wf_ref h r -> cp_mode_dot_h Op h r true x mode kd = Ok (h', o) ->
   extends h h' /\ length (h_obj h) <= o /\ (forall l, In l (owned h' o) -> length (h_arr h) <= l) /\
+  wf_ref h' (RObject o) /\
   exists w' fs', cp_mode_dot Op (operand_w Op (deref h r)) (operand_fs (deref h r)) x mode kd = Ok (w', fs') /\
      cpo_fs (read_obj h' o) = fs' /\ cpo_shape (read_obj h' o) = cp_shape fs' /\
      cpo_w (read_obj h' o) = match ref_w h r with Some _ => w' | None => ones Op (cp_rank fs') end.
 Proof. exact @cp_mode_dot_h_copy_fresh. Qed.
 Print Assumptions C04_cp_mode_dot_copy_fresh.
+
+(* HISTORIES (induction over the list of calls): any finite sequence of cp_mode_dot(copy=True) calls, each applied to ANY tensor seen so
+   far (one of the caller's operands or an earlier result), leaves the initial heap a prefix of the final one, keeps every reference
+   well-formed, and every tensor ever seen still denotes what it denoted before the sequence *)
+Theorem C04_cp_mode_dot_copy_history : forall (F : Type) (Op : fops F) ops (h : heap) refs h' refs',
+  Forall (wf_ref h) refs -> run_ops Op h refs ops = Ok (h', refs') ->
+  extends h h' /\ Forall (wf_ref h') refs' /\ length refs' = length refs + length ops /\
+  forall k r, nth_error refs k = Some r -> nth_error refs' k = Some r /\ deref h' r = deref h r.
+Proof. exact @run_ops_frame. Qed.
+Print Assumptions C04_cp_mode_dot_copy_history.
 
 (* copy=False, whatever the aliasing: an array the caller holds keeps its value or is owned by the result *)
 Theorem C04_cp_mode_dot_inplace_no_silent_clobber : forall (F : Type) (Op : fops F) (h : heap) r x mode kd h' o,
@@ -798,6 +809,9 @@ Example C04_round5_nonvacuous :
   tucker_new (mk [2] [1; 2]%Z) [[[1; 0]; [1; 1]]%Z] = Err /\
   (exists h' o, cp_mode_dot_h Zops alias_heap (RTuple (Some 0) 0) true (OpVec [1; 2]%Z) 2 false = Ok (h', o) /\
                 cp_entry Zops (cpo_w (read_obj h' o)) (cpo_fs (read_obj h' o)) [0; 0] = 49%Z /\ o = 0 /\ owned h' o = [6; 3; 4]) /\
+  (exists h' refs', run_ops Zops alias_heap [RTuple (Some 0) 0] [(0, OpVec [1; 2]%Z, 2, false); (1, OpMat [[1; 1]]%Z, 0, false); (0, OpVec [1; 1]%Z, 0, true)]
+                      = Ok (h', refs') /\ refs' = [RTuple (Some 0) 0; RObject 0; RObject 1; RObject 2] /\
+                    cpo_shape (read_obj h' 1) = [1; 2] /\ cpo_shape (read_obj h' 2) = [1; 2; 2]) /\
   (exists h' o, cp_mode_dot_h_fresh Zops alias_heap (RTuple (Some 0) 0) false (OpVec [1; 2]%Z) 2 false = Ok (h', o) /\
                 cp_entry Zops (cpo_w (read_obj h' o)) (cpo_fs (read_obj h' o)) [0; 0] = 49%Z /\ arr h' 1 = [[1; 2]; [3; 4]]%Z) /\
   (let h := mk_heap [[[1; 1]]; [[1; 2]; [3; 4]]; [[1; 2]; [3; 4]]; [[1; 1]; [2; 5]]]%Z [[1; 2; 3]] [] in
@@ -805,7 +819,8 @@ Example C04_round5_nonvacuous :
                 cp_entry Zops (cpo_w (read_obj h' o)) (cpo_fs (read_obj h' o)) [0; 0] = 49%Z /\
                 arr h' 2 = [[5; 22]; [15; 44]]%Z /\ owned h' o = [0; 1; 2]).
 Proof.
-  cbv zeta. repeat (split; [vm_compute; reflexivity|]). split; [|split].
+  cbv zeta. repeat (split; [vm_compute; reflexivity|]). split; [|split; [|split]].
+  - do 2 eexists. split; [vm_compute; reflexivity|]. repeat split; vm_compute; reflexivity.
   - do 2 eexists. split; [vm_compute; reflexivity|]. repeat split; vm_compute; reflexivity.
   - do 2 eexists. split; [vm_compute; reflexivity|]. repeat split; vm_compute; reflexivity.
   - do 2 eexists. split; [vm_compute; reflexivity|]. repeat split; vm_compute; reflexivity.
